@@ -585,6 +585,7 @@ class _CUR(GreedySelector):
             if self.recompute_every != 0 and (
                 np.linalg.norm(np.take(self.X_current_, [c], axis=self._axis))
                 > self.tolerance
+                * max(1.0, np.linalg.norm(np.take(X, [c], axis=self._axis)))
             ):
                 self._orthogonalize(last_selected=c)
 
@@ -766,6 +767,7 @@ class _PCovCUR(GreedySelector):
             if self.recompute_every != 0 and (
                 np.linalg.norm(np.take(self.X_current_, [c], axis=self._axis))
                 > self.tolerance
+                * max(1.0, np.linalg.norm(np.take(X, [c], axis=self._axis)))
             ):
                 self._orthogonalize(last_selected=c)
 
